@@ -9,58 +9,26 @@ import (
 func init() { register("C08", propC08) }
 
 func propC08(c *Ctx) {
-	c.Explanation = "Decides structural necessary conditions of IPv4 reassembly for all inputs and schedules: (F1) Fragmentation.{reassemblers,rList,size} and reassembler.{holes,deleted,heap,done,size} are accessed only under their mutexes and lookup-or-create of the reassembler is one critical section; (F2) a fragment is stored only when it filled part of a hole, the datagram is handed up (done) only when every hole is deleted and the heap reassembled without error, and a failed reassembly drops the datagram instead of panicking; (F3) an existing reassembler is reused only when it is not older than the timeout; (F4) the reassembly key is computed from all four of identification, protocol, source and destination, and ipv4.HandlePacket passes first = fragment offset, last = offset + payload size - 1, more = MF bit, taking the fragment path exactly when MF is set or the offset is non-zero; (F5) memory accounting moves with the stored bytes; (F6) RFC 815 hole bookkeeping in updateHoles: the exact site table (which hole is deleted under which overlap condition, which remainder holes are created with which bounds) and (F7) reassemble: fragments are merged in heap (offset) order, every popped fragment is either appended (after trimming exactly the overlap size-offset) or the whole reassembly fails on a gap - no fragment is skipped. (F9) link typestate of the reassembler list; F6 also tables the reassembler's initial hole 0..65535. (F10) the fragment heap's container/heap implementation over the fragment offset. (F11) the reassembler LRU list is a correct doubly-linked list; F4 also requires Hash3Words to depend on all three key words; F2 tables tooOld. NOT decided: the algebra of the hole list over all fragment sequences (that the bookkeeping is sufficient), 32-bit key collisions between datagrams."
+	c.Explanation = "Decides structural necessary conditions of IPv4 reassembly for all inputs and schedules: (F1) Fragmentation.{reassemblers,rList,size} and reassembler.{holes,deleted,heap,done,size} are accessed only under their mutexes and lookup-or-create of the reassembler is one critical section; (F2) a fragment is stored only when it filled part of a hole, the datagram is handed up (done) only when every hole is deleted and the heap reassembled without error, and a failed reassembly drops the datagram instead of panicking; (F3) an existing reassembler is reused only when it is not older than the timeout; (F4) the reassembly key is computed from all four of identification, protocol, source and destination, and ipv4.HandlePacket passes first = fragment offset, last = offset + payload size - 1, more = MF bit, taking the fragment path exactly when MF is set or the offset is non-zero; (F5) memory accounting moves with the stored bytes; (F6) RFC 815 hole bookkeeping in updateHoles: the exact site table (which hole is deleted under which overlap condition, which remainder holes are created with which bounds) and (F7) reassemble: fragments are merged in heap (offset) order, every popped fragment is either appended (after trimming exactly the overlap size-offset) or the whole reassembly fails on a gap - no fragment is skipped. (F9) link typestate of the reassembler list; F6 also tables the reassembler's initial hole 0..65535. (F10) the fragment heap's container/heap implementation over the fragment offset. (F11) the reassembler LRU list is a correct doubly-linked list; F4 also requires Hash3Words to depend on all three key words; F2 tables tooOld. (F12) the fragment fields are read from exactly the RFC 791/8200 bits (bit-provenance, shared with C15/B1). (F13) a fresh reassembler is aged from now with an empty heap, and the remainders of a split hole are stored back into the live hole list. (F14) a fragment is cut at exactly its IP length before it is stored (shared with C16/V2); F10 also requires that Push stores and Pop removes on every way out. (F15) package fragmentation narrows nothing and ipv4 only at the reviewed places. NOT decided: the algebra of the hole list over all fragment sequences (that the bookkeeping is sufficient), 32-bit key collisions between datagrams."
 	c.Assumptions = []string{"container/heap orders by fragHeap.Less", "reassembler.size is only read by release after checkDoneOrMark, which is a barrier on reassembler.mu (exception with reason)"}
 	fr := "(*fragmentation.reassembler)."
+	f12 := c.Rule("F12", "K9 bitprov (shared with C15/B1)", "the fragment fields (IPv4 IHL, total length, id, flags, fragment offset, protocol; IPv6 fragment header) are read from exactly the RFC 791/8200 bits", 9)
+	c.fieldAccessorLayouts(f12, &bitprov{p: c.P}, func(f fieldLayout) bool {
+		if f.Typ == "IPv6Fragment" {
+			return true
+		}
+		return f.Typ == "IPv4" && (f.Field == "IHL" || f.Field == "TotalLength" || f.Field == "Identification" || f.Field == "Flags" || f.Field == "FragmentOffset" || f.Field == "Protocol")
+	})
+	reassemblerStateRule(c, c.Rule("F13", "K7 exact-guard site tables", "a fresh reassembler is aged from now with an empty heap; hole remainders are stored back into the live list", 4))
+	vvCapLengthRule(c, c.Rule("F14", "K7 exact-guard site table (shared with C16/V2)", "a fragment is cut at exactly its IP length before it is stored", 4))
+	c.NoNewNarrowing(c.Rule("F15", "K8 narrowing (closed world, reviewed table)", "fragment offsets and lengths: package fragmentation narrows nothing, ipv4 only at the reviewed places", 5), []string{"/network/fragmentation", "/network/ipv4", "/network/hash"}, narrowIP)
 	f1 := c.Rule("F1", "K4 lockset", "fragmentation state only under its mutexes", 30)
 	c.Locks().CheckGuards(c, f1, guardsFrag, []Exception{
 		{Fn: "(*fragmentation.Fragmentation).release", Field: "size", Reason: "read after r.checkDoneOrMark(), which locks/unlocks r.mu and marks the reassembler done: no later process() mutates size (process returns at once when done)"},
 	})
 
 	f2 := c.Rule("F2", "K9 path table + site table", "store only useful fragments; done only when complete; fail soft", 8)
-	if fn := c.Fn(f2, fr+"process"); fn != nil {
-		c.CheckSites(f2, fn, []SiteSpec{
-			{Kind: "call", Target: "container/heap.Push", Args: []string{"&$0.heap", "fragmentation.fragment{offset: $1, vv: buffer.VectorisedView.Clone($4, nil)}"}, Guards: []string{"!$0.done", fr + "updateHoles($0, $1, $2, $3)"}, Exact: true, N: 1, Why: "a fragment is stored (as its own clone, keyed by its first offset) exactly when it filled part of a hole"},
-			{Kind: "call", Target: fr + "updateHoles", Args: []string{"$0", "$1", "$2", "$3"}, Guards: []string{"!$0.done"}, Exact: true, N: 1, Why: "hole list updated with (first,last,more) as given"},
-			{Kind: "call", Target: "(*fragmentation.fragHeap).reassemble", Args: []string{"&$0.heap"}, Guards: []string{"!$0.done", "!($0.deleted < builtin:len($0.holes))"}, Exact: true, N: 1, Why: "reassembly attempted only when every hole is deleted"},
-			{Kind: "store", Target: "fragmentation.reassembler.size", Args: []string{"$0", "($0.size + buffer.VectorisedView.Size($4))"}, Guards: []string{fr + "updateHoles($0, $1, $2, $3)"}, N: 1, Why: "accounting grows by the stored fragment's size"},
-		})
-		ps, es := WalkPaths(fn, 64)
-		if es != "" {
-			c.Bad(f2, FuncName(fn)+"/undecided", c.P.Pos(fn.Pos()), es)
-		}
-		nDone := 0
-		for _, p := range ps {
-			if !strings.HasPrefix(p.Result, "return ") {
-				c.Bad(f2, FuncName(fn)+"/path-result:"+p.Result, c.P.Pos(fn.Pos()), "process must return on every path (a panic here is reachable from the network)")
-				continue
-			}
-			parts := splitTop(strings.TrimPrefix(p.Result, "return "))
-			if len(parts) != 4 {
-				c.Bad(f2, FuncName(fn)+"/result-arity", c.P.Pos(fn.Pos()), "unexpected result list "+p.Result)
-				continue
-			}
-			has := func(l string) bool {
-				for _, x := range p.Conds {
-					if x == l {
-						return true
-					}
-				}
-				return false
-			}
-			if parts[1] == "true" {
-				nDone++
-				ok := has("!($0.deleted < builtin:len($0.holes))") && has("((*fragmentation.fragHeap).reassemble(&$0.heap)#1 == nil)") && has("!$0.done") && parts[0] == "(*fragmentation.fragHeap).reassemble(&$0.heap)#0" && parts[3] == "nil"
-				c.Check(ok, f2, FuncName(fn)+"/done-path", c.P.Pos(fn.Pos()), "done=true only with all holes deleted, reassemble()==nil, returning its result", "a path reports done=true without a complete, error-free reassembly: ["+strings.Join(p.Conds, " && ")+"] => "+p.Result)
-			} else if parts[1] != "false" {
-				c.Bad(f2, FuncName(fn)+"/done-not-constant:"+parts[1], c.P.Pos(fn.Pos()), "done result is not a constant decided by the hole test")
-			}
-			if has("$0.done") {
-				c.Check(len(p.Effects) <= 3 && parts[2] == "0", f2, FuncName(fn)+"/already-done-path", c.P.Pos(fn.Pos()), "a finished reassembler ignores further fragments", "a reassembler already marked done still processes fragments")
-			}
-		}
-		c.Check(nDone >= 1, f2, FuncName(fn)+"/has-done-path", c.P.Pos(fn.Pos()), "a path hands the datagram up", "no path hands a complete datagram up any more")
-	}
+	reassemblerProcessRule(c, f2)
 	if fn := c.Fn(f2, "(*fragmentation.Fragmentation).Process"); fn != nil {
 		ps, es := WalkPaths(fn, 400)
 		if es != "" {
@@ -344,5 +312,57 @@ func ipv4InboundRule(c *Ctx, f4 string) {
 			atoms[e.Atom] = true
 		}
 		c.Check(atoms[sub(m, "({MF} == 0)")[0]] && atoms[sub(m, "(0 == {OFF})")[0]], f4, FuncName(fn)+"/tests-mf-and-offset", c.P.Pos(fn.Pos()), "tests the MF bit and the fragment offset", "no longer tests both the MF bit and the fragment offset")
+	}
+}
+
+// reassemblerProcessRule: a fragment is stored (through container/heap, so
+// that reassembly can pop in offset order) exactly when it filled part of a
+// hole; the datagram is handed up only when every hole is deleted and the
+// heap reassembled without error. Shared by C08/F2 and C13/I12 (fragmented
+// echo requests).
+func reassemblerProcessRule(c *Ctx, f2 string) {
+	fr := "(*fragmentation.reassembler)."
+	if fn := c.Fn(f2, fr+"process"); fn != nil {
+		c.CheckSites(f2, fn, []SiteSpec{
+			{Kind: "call", Target: "container/heap.Push", Args: []string{"&$0.heap", "fragmentation.fragment{offset: $1, vv: buffer.VectorisedView.Clone($4, nil)}"}, Guards: []string{"!$0.done", fr + "updateHoles($0, $1, $2, $3)"}, Exact: true, N: 1, Why: "a fragment is stored (as its own clone, keyed by its first offset) exactly when it filled part of a hole"},
+			{Kind: "call", Target: fr + "updateHoles", Args: []string{"$0", "$1", "$2", "$3"}, Guards: []string{"!$0.done"}, Exact: true, N: 1, Why: "hole list updated with (first,last,more) as given"},
+			{Kind: "call", Target: "(*fragmentation.fragHeap).reassemble", Args: []string{"&$0.heap"}, Guards: []string{"!$0.done", "!($0.deleted < builtin:len($0.holes))"}, Exact: true, N: 1, Why: "reassembly attempted only when every hole is deleted"},
+			{Kind: "store", Target: "fragmentation.reassembler.size", Args: []string{"$0", "($0.size + buffer.VectorisedView.Size($4))"}, Guards: []string{fr + "updateHoles($0, $1, $2, $3)"}, N: 1, Why: "accounting grows by the stored fragment's size"},
+		})
+		ps, es := WalkPaths(fn, 64)
+		if es != "" {
+			c.Bad(f2, FuncName(fn)+"/undecided", c.P.Pos(fn.Pos()), es)
+		}
+		nDone := 0
+		for _, p := range ps {
+			if !strings.HasPrefix(p.Result, "return ") {
+				c.Bad(f2, FuncName(fn)+"/path-result:"+p.Result, c.P.Pos(fn.Pos()), "process must return on every path (a panic here is reachable from the network)")
+				continue
+			}
+			parts := splitTop(strings.TrimPrefix(p.Result, "return "))
+			if len(parts) != 4 {
+				c.Bad(f2, FuncName(fn)+"/result-arity", c.P.Pos(fn.Pos()), "unexpected result list "+p.Result)
+				continue
+			}
+			has := func(l string) bool {
+				for _, x := range p.Conds {
+					if x == l {
+						return true
+					}
+				}
+				return false
+			}
+			if parts[1] == "true" {
+				nDone++
+				ok := has("!($0.deleted < builtin:len($0.holes))") && has("((*fragmentation.fragHeap).reassemble(&$0.heap)#1 == nil)") && has("!$0.done") && parts[0] == "(*fragmentation.fragHeap).reassemble(&$0.heap)#0" && parts[3] == "nil"
+				c.Check(ok, f2, FuncName(fn)+"/done-path", c.P.Pos(fn.Pos()), "done=true only with all holes deleted, reassemble()==nil, returning its result", "a path reports done=true without a complete, error-free reassembly: ["+strings.Join(p.Conds, " && ")+"] => "+p.Result)
+			} else if parts[1] != "false" {
+				c.Bad(f2, FuncName(fn)+"/done-not-constant:"+parts[1], c.P.Pos(fn.Pos()), "done result is not a constant decided by the hole test")
+			}
+			if has("$0.done") {
+				c.Check(len(p.Effects) <= 3 && parts[2] == "0", f2, FuncName(fn)+"/already-done-path", c.P.Pos(fn.Pos()), "a finished reassembler ignores further fragments", "a reassembler already marked done still processes fragments")
+			}
+		}
+		c.Check(nDone >= 1, f2, FuncName(fn)+"/has-done-path", c.P.Pos(fn.Pos()), "a path hands the datagram up", "no path hands a complete datagram up any more")
 	}
 }
